@@ -90,6 +90,67 @@ def rank_chop(ob):
         ob.prove('no_truncation_without_eps', z3.Or(R == n, z3.ForAll([j], z3.Implies(z3.And(j >= 0, j < n), F(j) == 0))))
 
 
+def check_ttsvd(ob, A, cores, R, dims, d, F0, eps, rmax_of):
+    """TT-SVD dataflow (hypotheses of L10), rank bounds against rank_chop / exact rank, error ledger.
+    dims[k]: size of mode k of the decomposed (possibly merged) tensor ; rmax_of(k): bound for bond k"""
+    ex = ob.ex
+    N = dims
+    from ttvc import gauge
+    recs = [e[1] for e in ex.events if e[0] == 'svd']
+    ob.prove('n_svd', len(recs) == d - 1, 'ghost')
+    if len(recs) != d - 1:
+        return False
+    # ---- data flow = TT-SVD (hypotheses of L10)
+    for k, rec in enumerate(recs):
+        src_t = rec['A'] if not rec.get('transposed') else rec['A']
+        base = gauge.base_record(rec)
+        Amat = base['A'] if base['A'] is not None else rec['A']
+        # the factorised matrix: unfolding [r_k N_k, rest] of the input (k = 0) or of the previous remainder
+        mat = rec['A'].ghost.get('transpose_of', rec['A']) if (rec['A'].ghost.get('transpose_of') is not None and rec is not base) else rec['A']
+        real_in = mat.ghost.get('transpose_of', mat) if mat.ghost.get('transpose_of') is not None and 'reshape_of' not in mat.ghost else mat
+        origin = real_in.ghost.get('reshape_of', real_in)
+        if k == 0:
+            ob.prove('svd0_of_input', origin is A or origin.ghost.get('copy_of') is A or origin is A.ghost.get('reshape_of'), 'ghost')
+        else:
+            rem = real_in.ghost.get('remainder')
+            ok = rem is not None and gauge.base_record(rem[0]) is gauge.base_record(recs[k - 1]) and gauge.same_rank(ex, rem[1], R[k])
+            ob.prove('svd%d_of_previous_remainder' % k, bool(ok), 'ghost')
+        all_eq(ob, 'svd%d_unfolding' % k, real_in.shape, [to_int(R[k]) * N[k], T.prod(N[k + 1:])])
+        tr = cores[k].ghost.get('trunc')
+        ok = tr is not None and gauge.base_record(tr[0]) is gauge.base_record(rec) and tr[1] == 'U' and gauge.same_rank(ex, tr[2], R[k + 1])
+        ob.prove('core%d_is_truncated_U' % k, bool(ok), 'ghost')
+    rem = cores[d - 1].ghost.get('remainder')
+    ok = rem is not None and gauge.base_record(rem[0]) is gauge.base_record(recs[-1]) and gauge.same_rank(ex, rem[1], R[d - 1])
+    ob.prove('last_core_is_remainder', bool(ok), 'ghost')
+    # ---- ranks against the rank_chop result and the exact rank
+    binding = []
+    for k, rec in enumerate(recs):
+        b = gauge.base_record(rec)
+        chop = b.get('chop') if b.get('chop') is not None else rec.get('chop')
+        rho = b.get('rho') if b.get('rho') is not None else rec.get('rho')
+        if chop is None:
+            ob.fail('svd%d_uses_rank_chop' % k, 'ghost', 'no rank_chop event for this SVD')
+            return False
+        ob.prove('rank%d_le_chop' % (k + 1), to_int(R[k + 1]) <= chop, 'rank')
+        ob.prove('rank%d_le_exact_rank' % (k + 1), z3.Or(to_int(R[k + 1]) <= rho, to_int(R[k + 1]) == 1), 'rank')
+        binding.append(to_int(R[k + 1]) < chop)
+    # ---- error ledger
+    tails = [gauge.base_record(rec)['tail'](to_int(R[k + 1])) for k, rec in enumerate(recs)]
+    for _ in ob.case(z3.Not(z3.Or(*binding))):
+        # each step is proved and then used as a lemma for the next one (the solver is weak at nonlinear chains)
+        def lemma(name, fact):
+            ob.prove(name, fact, 'ghost')
+            ex.assume_ghost(fact)
+        for k, rec in enumerate(recs):
+            b = gauge.base_record(rec)
+            e = b.get('chop_eps') if b.get('chop_eps') is not None else rec.get('chop_eps')
+            lemma('ledger.norm%d_le_normA' % k, b['fro2'] <= F0)
+            lemma('ledger.eps%d_share' % k, e * e * (d - 1) == eps * eps * b['fro2'])
+            lemma('ledger.tail%d_le_share' % k, tails[k] * (d - 1) <= eps * eps * F0)
+        ob.prove('ledger.total', z3.Sum(tails) <= eps * eps * F0, 'ghost')
+    return True
+
+
 def grid_tt(dmax):
     return [dict(d=d, src=s) for d in range(1, dmax + 1) for s in (('torch', 'numpy') if d == 2 else ('torch',))]
 
@@ -133,57 +194,126 @@ def to_tt(ob, d, src):
         ob.prove_eq('value_d1', cores[0].at(idx), A.at([idx[1]]))
         ob.frame()
         return
-    from ttvc import gauge
-    recs = [e[1] for e in ex.events if e[0] == 'svd']
-    ob.prove('n_svd', len(recs) == d - 1, 'ghost')
-    if len(recs) != d - 1:
+    if not check_ttsvd(ob, A, cores, R, N, d, F0, eps, lambda k: rmax):
         return
-    # ---- data flow = TT-SVD (hypotheses of L10)
-    for k, rec in enumerate(recs):
-        src_t = rec['A'] if not rec.get('transposed') else rec['A']
-        base = gauge.base_record(rec)
-        Amat = base['A'] if base['A'] is not None else rec['A']
-        # the factorised matrix: unfolding [r_k N_k, rest] of the input (k = 0) or of the previous remainder
-        mat = rec['A'].ghost.get('transpose_of', rec['A']) if (rec['A'].ghost.get('transpose_of') is not None and rec is not base) else rec['A']
-        real_in = mat.ghost.get('transpose_of', mat) if mat.ghost.get('transpose_of') is not None and 'reshape_of' not in mat.ghost else mat
-        origin = real_in.ghost.get('reshape_of', real_in)
-        if k == 0:
-            ob.prove('svd0_of_input', origin is A or origin.ghost.get('copy_of') is A, 'ghost')
+    ob.frame()
+
+
+@scenario('C01', 'to_tt.rmax_list', ['torchtt._tt_base.TT.__init__', 'torchtt._decomposition.to_tt'],
+          quick=[dict(d=d, shape=s) for d in (2, 3) for s in (False, True)], thorough=[dict(d=d, shape=s) for d in (2, 3, 4, 5) for s in (False, True)],
+          replay='tt_svd', max_paths=400)
+def to_tt_rmax_list(ob, d, shape):
+    """per-bond rmax list [1, r_1, ..., r_{d-1}, 1]: bond k is limited by rmax[k]; optional explicit shape argument"""
+    from . import hooks
+    ex = ob.ex
+    hooks.install(ex)
+    N = H.sym_sizes(ex, 'N', d)
+    if shape:
+        # the dense input has another (flat) shape with the same number of elements
+        A = T.atom_tensor('A', [T.sz(T.prod(N))])
+        A.axes[0] = T.Axis(T.sz(T.prod(N)), [T.Factor(n) for n in N])
+    else:
+        A = T.atom_tensor('A', N)
+    F0 = z3.Real('normA2')
+    ex.assume_ghost(F0 >= 0)
+    A.ghost['fro2'] = F0
+    ex.register_arg(A, 'A')
+    eps = z3.Real('eps')
+    ex.assume(eps > 0)
+    ex.assume(eps < 1)
+    rm = [1] + H.sym_sizes(ex, 'rmax', d - 1) + [1]
+    ob.describe('N', N); ob.describe('eps', eps); ob.describe('rmax', rm); ob.describe('src', 'torch'); ob.describe('shape_arg', shape)
+    ob.replay_args = {'kind': 'tt'}
+    kw = {'eps': SymScalar(eps, 'float', 'float'), 'rmax': list(rm)}
+    if shape:
+        kw['shape'] = list(N)
+    x = ex.instantiate(H.tt_class(ex), [A], kw)
+    ob.wf(x)
+    f = fields(ob, x)
+    all_eq(ob, 'N', f['N'], N)
+    R = f['R']
+    if len(R) != d + 1:
+        return
+    for k in range(1, d):
+        ob.prove('rank%d_le_rmax%d' % (k, k), to_int(R[k]) <= rm[k], 'rank')
+    check_ttsvd(ob, A, x.attrs['cores'], R, N, d, F0, eps, lambda k: rm[k])
+    ob.frame()
+
+
+@scenario('C01', 'mat_to_tt', ['torchtt._tt_base.TT.__init__', 'torchtt._decomposition.mat_to_tt', 'torchtt._decomposition.to_tt'],
+          quick=[dict(d=d, src='torch') for d in (1, 2, 3)] + [dict(d=2, src='numpy')], thorough=[dict(d=d, src=s) for d in (1, 2, 3, 4) for s in ('torch', 'numpy')],
+          replay='tt_svd', max_paths=400)
+def mat_to_tt(ob, d, src):
+    """TT(A, shape=[(M1,N1),...]): exact operator shape, rank bounds, and the cores are the un-interleaved cores of the TT-SVD of
+    the tensor with merged modes (M_k N_k), for which the to_tt contract gives the error bound (||.|| is invariant under the permutation)"""
+    from . import hooks
+    ex = ob.ex
+    hooks.install(ex)
+    M = H.sym_sizes(ex, 'M', d)
+    N = H.sym_sizes(ex, 'N', d)
+    A = T.atom_tensor('A', M + N, lib=src)
+    F0 = z3.Real('normA2')
+    ex.assume_ghost(F0 >= 0)
+    A.ghost['fro2'] = F0
+    ex.register_arg(A, 'A')
+    eps = z3.Real('eps')
+    ex.assume(eps > 0)
+    ex.assume(eps < 1)
+    rmax = z3.Int('rmax')
+    ex.assume(rmax >= 1)
+    ob.describe('N', N); ob.describe('M', M); ob.describe('eps', eps); ob.describe('rmax', rmax); ob.describe('src', src)
+    ob.replay_args = {'kind': 'ttm'}
+    captured = {}
+    to_tt_f = decomp(ex, 'to_tt')
+
+    def record(ex_, f, args, kwargs):
+        del ex_.call_hooks['torchtt._decomposition.to_tt']
+        try:
+            r = ex_.call_sfunc(f, args, kwargs)
+        finally:
+            ex_.call_hooks['torchtt._decomposition.to_tt'] = record
+        captured['ttv'] = list(r[0])
+        captured['R'] = list(r[1])
+        captured['A'] = args[0]
+        return r
+    ex.call_hooks['torchtt._decomposition.to_tt'] = record
+    x = ex.instantiate(H.tt_class(ex), [A], {'shape': [(m, n) for m, n in zip(M, N)], 'eps': SymScalar(eps, 'float', 'float'), 'rmax': rmax})
+    ob.wf(x)
+    f = fields(ob, x)
+    ob.prove('kind', f['is_ttm'] is True)
+    if not f['is_ttm']:
+        return
+    all_eq(ob, 'M', f['M'], M)
+    all_eq(ob, 'N', f['N'], N)
+    R = f['R']
+    cores = x.attrs['cores']
+    if d == 1:
+        idx = H.fresh_axis_index(ex, cores[0])
+        ob.prove_eq('value_d1', cores[0].at(idx), A.at([idx[1], idx[2]]))
+        ob.frame()
+        return
+    if 'ttv' not in captured:
+        ob.fail('uses_to_tt', 'ghost', 'mat_to_tt did not call to_tt')
+        return
+    ttv = captured['ttv']
+    all_eq(ob, 'R', R, captured['R'], 'rank')
+    for k in range(1, d):
+        ob.prove('rank%d_le_rmax' % k, to_int(R[k]) <= rmax, 'rank')
+    # the tensor handed to to_tt is the mode-interleaved input:  B[(m1,n1),...,(md,nd)] == A[m1..md, n1..nd]   (same Frobenius norm)
+    B = captured['A']
+    all_eq(ob, 'merged_shape', B.shape, [m * n for m, n in zip(M, N)])
+    if len(B.shape) == d and all(len(ax.factors) == 2 for ax in B.axes):
+        bi = H.fresh_axis_index(ex, B)
+        ob.prove_eq('interleave', B.at(bi), A.at([i[0] for i in bi] + [i[1] for i in bi]))
+    ob.prove('norm_preserved', B.ghost.get('fro2') is not None and B.ghost['fro2'] is F0, 'ghost')
+    # un-interleave of every core: cores[k][a, m, n, b] == ttv[k][a, (m, n), b]
+    for k in range(d):
+        c, t = cores[k], ttv[k]
+        all_eq(ob, 'core%d_shape' % k, c.shape, [to_int(R[k]), M[k], N[k], to_int(R[k + 1])])
+        if c.ndim == 4 and len(t.axes) == 3 and len(t.axes[1].factors) == 2:
+            ci = H.fresh_axis_index(ex, c)
+            ob.prove_eq('core%d_uninterleave' % k, c.at(ci), t.at([ci[0], (ci[1][0], ci[2][0]), ci[3]]))
         else:
-            rem = real_in.ghost.get('remainder')
-            ok = rem is not None and gauge.base_record(rem[0]) is gauge.base_record(recs[k - 1]) and gauge.same_rank(ex, rem[1], R[k])
-            ob.prove('svd%d_of_previous_remainder' % k, bool(ok), 'ghost')
-        all_eq(ob, 'svd%d_unfolding' % k, real_in.shape, [to_int(R[k]) * N[k], T.prod(N[k + 1:])])
-        tr = cores[k].ghost.get('trunc')
-        ok = tr is not None and gauge.base_record(tr[0]) is gauge.base_record(rec) and tr[1] == 'U' and gauge.same_rank(ex, tr[2], R[k + 1])
-        ob.prove('core%d_is_truncated_U' % k, bool(ok), 'ghost')
-    rem = cores[d - 1].ghost.get('remainder')
-    ok = rem is not None and gauge.base_record(rem[0]) is gauge.base_record(recs[-1]) and gauge.same_rank(ex, rem[1], R[d - 1])
-    ob.prove('last_core_is_remainder', bool(ok), 'ghost')
-    # ---- ranks against the rank_chop result and the exact rank
-    binding = []
-    for k, rec in enumerate(recs):
-        b = gauge.base_record(rec)
-        chop = b.get('chop') if b.get('chop') is not None else rec.get('chop')
-        rho = b.get('rho') if b.get('rho') is not None else rec.get('rho')
-        if chop is None:
-            ob.fail('svd%d_uses_rank_chop' % k, 'ghost', 'no rank_chop event for this SVD')
-            return
-        ob.prove('rank%d_le_chop' % (k + 1), to_int(R[k + 1]) <= chop, 'rank')
-        ob.prove('rank%d_le_exact_rank' % (k + 1), z3.Or(to_int(R[k + 1]) <= rho, to_int(R[k + 1]) == 1), 'rank')
-        binding.append(to_int(R[k + 1]) < chop)
-    # ---- error ledger
-    tails = [gauge.base_record(rec)['tail'](to_int(R[k + 1])) for k, rec in enumerate(recs)]
-    for _ in ob.case(z3.Not(z3.Or(*binding))):
-        # each step is proved and then used as a lemma for the next one (the solver is weak at nonlinear chains)
-        def lemma(name, fact):
-            ob.prove(name, fact, 'ghost')
-            ex.assume_ghost(fact)
-        for k, rec in enumerate(recs):
-            b = gauge.base_record(rec)
-            e = b.get('chop_eps') if b.get('chop_eps') is not None else rec.get('chop_eps')
-            lemma('ledger.norm%d_le_normA' % k, b['fro2'] <= F0)
-            lemma('ledger.eps%d_share' % k, e * e * (d - 1) == eps * eps * b['fro2'])
-            lemma('ledger.tail%d_le_share' % k, tails[k] * (d - 1) <= eps * eps * F0)
-        ob.prove('ledger.total', z3.Sum(tails) <= eps * eps * F0, 'ghost')
+            ob.fail('core%d_uninterleave' % k, 'value', 'unexpected structure: core ndim %d, TT-SVD core axes %s' % (c.ndim, t.axes))
+    check_ttsvd(ob, B, ttv, R, [m * n for m, n in zip(M, N)], d, F0, eps, lambda k: rmax)
     ob.frame()
